@@ -10,6 +10,7 @@ import (
 	"berty.tech/go-ipfs-log/identityprovider"
 	"berty.tech/go-ipfs-log/io"
 	"berty.tech/go-orbit-db/accesscontroller"
+	acutils "berty.tech/go-orbit-db/accesscontroller/utils"
 	"berty.tech/go-orbit-db/address"
 	"berty.tech/go-orbit-db/iface"
 	cid "github.com/ipfs/go-cid"
@@ -45,6 +46,10 @@ func (i *ipfsAccessController) CanAppend(entry logac.LogEntry, p identityprovide
 	key := entry.GetIdentity().ID
 	for _, allowedKey := range i.writeAccess {
 		if allowedKey == key || allowedKey == "*" {
+			if err := acutils.VerifyEntryIdentity(entry); err != nil {
+				return err
+			}
+
 			return p.VerifyIdentity(entry.GetIdentity())
 		}
 	}
